@@ -100,7 +100,7 @@ def run(case):
         asyncio.set_event_loop(loop)
         outer = _Outer(inputs={'outer': [list(x) for x in case['outer']], 'inner': case['inner'], 'depth': case.get('depth', 1), 'where': case['where']}, loop=loop)
         try:
-            loop.run_until_complete(asyncio.wait_for(outer.step_until_terminated(), 20))
+            loop.run_until_complete(asyncio.wait_for(outer.step_until_terminated(), 6))
         except asyncio.TimeoutError:
             incon = 'watchdog'
         state = outer.state.value
